@@ -100,7 +100,9 @@ func runPathSession(name []byte, up int, rpath []B) pathEvent {
 		// a second announcement on the same connection, with an ordinary name (whatever was noted for the first stays in force)
 		units = append(units, ctl(0x1210, body1210("JS", r, []aFile{{[]byte("second.bin"), []byte{1, 2}}})))
 	}
-	units = append(units, ctl(0x1211, body1211(name, 0, 3)))
+	if (len(name)+up)%3 != 0 { // (0x1211 announces the start of a file; a terminal may go straight to the data)
+		units = append(units, ctl(0x1211, body1211(name, 0, 3)))
+	}
 	if len(name) <= 50 && len(name) > 0 && name[0] != 0 && name[len(name)-1] != 0 {
 		units = append(units, chunkBytes("JS", name, 0, content))
 		ev.Uploaded = true
@@ -108,6 +110,29 @@ func runPathSession(name []byte, up int, rpath []B) pathEvent {
 	units = append(units, ctl(0x1212, body1211(name, 0, 3)))
 	conn := &scriptConn{segs: units}
 	ev.Panic = protect(func() { attachment.VerifServe(conn, dialectOf("JS"), attachment.VerifDefaultFileEventer()) })
+	// whatever links the session left behind are followed up by the same terminal: a later session uploads a file under the
+	// link's own name (a write through a link that points out of the directory is a write outside)
+	var links []string
+	filepath.WalkDir(root, func(p string, d fs.DirEntry, err error) error {
+		if err == nil && d.Type()&fs.ModeSymlink != 0 {
+			if _, was := before[p]; !was {
+				links = append(links, filepath.Base(p))
+			}
+		}
+		return nil
+	})
+	for _, ln := range links {
+		if len(ln) > 50 {
+			continue
+		}
+		u2 := [][]byte{ctl(0x1210, body1210("JS", r, []aFile{{[]byte(ln), content}})), ctl(0x1211, body1211([]byte(ln), 0, 3)),
+			chunkBytes("JS", []byte(ln), 0, content), ctl(0x1212, body1211([]byte(ln), 0, 3))}
+		if p2 := protect(func() {
+			attachment.VerifServe(&scriptConn{segs: u2}, dialectOf("JS"), attachment.VerifDefaultFileEventer())
+		}); p2 != "" && ev.Panic == "" {
+			ev.Panic = p2
+		}
+	}
 
 	after := snapshot(root)
 	for p, h := range after {
